@@ -248,6 +248,10 @@ DIRECTED_SAM = [[("perm",), ("getrest",), ("write",), ("replace", 0), ("getrest"
 # an EMPTY Python list as the index (a table without rows), then the usual observations
 DIRECTED_EMPTY = [[("emptylist",), ("len",)], [("emptylist",), ("get", 1), ("write",)], [("slice", 0), ("emptylist",), ("concat",)],
                   [("get", 0), ("emptylist",), ("get", 0)]]
+# attribute assignment in place (t.start = values) between other observations of the same object: what was handed out before the
+# assignment (the table as one object, its list of entries) must not be served again afterwards
+DIRECTED_ASSIGN = [[("tolist",), ("assign", 0), ("tolist",)], [("get", 1), ("assign", 1), ("tolist",)], [("tolist",), ("assign", 0), ("write",)],
+                   [("assign", 0), ("slice", 0), ("write",)], [("assign", 1), ("mask",), ("get", 2), ("write",)], [("assign", 0), ("get", 1), ("assign", 0), ("tolist",)]]
 SAM_HDR = dict(fmt="sam", rows=[[1, 1, 1, 2, 1, 2, 1, 1, 1, 2, 2], [2, 1, 1, 1, 1, 1, 1, 1, 1, 1, 1, 3]], header=["@HD\tVN:1.0"])
 
 
@@ -338,7 +342,7 @@ class OpSequences(LockStep):
             progs = gen_programs(ops, mx, sample, seed if tier == "thorough" else 0, full)
             if not is_seq(f):
                 progs += [p for p in DIRECTED if p not in progs]
-                progs += DIRECTED_EMPTY + (DIRECTED_SAM if name == "sam" else [])
+                progs += DIRECTED_EMPTY + (DIRECTED_SAM if name == "sam" else []) + (DIRECTED_ASSIGN if INTCOL[name] else [])
             else:
                 progs += [p for p in DIRECTED if not any(o[0] == "replace" for o in p) and p not in progs]
             for prog in progs:
@@ -412,6 +416,10 @@ class OpSequences(LockStep):
                     col = INTCOL[skel["file"]][op[1]]
                     t = replace(t, **{col: ctx.arr([x[f"new{nrep}_{j}"] for j in range(len(t))], "int64")})
                     nrep += 1
+                elif k == "assign":
+                    col = INTCOL[skel["file"]][op[1]]
+                    setattr(t, col, ctx.arr([x[f"new{nrep}_{j}"] for j in range(len(t))], "int64"))
+                    nrep += 1
                 elif k == "tolist":
                     rows = t.tolist()
                     ints = [nm for nm, kind in cols if kind in ("int", "oint")] if cols else []
@@ -453,7 +461,7 @@ class OpSequences(LockStep):
         for k in range(sum(1 for o in ops if o[0] == "ilist")):
             for j in range(2):
                 V.int(f"i{k}_{j}", 0, n - 1)
-        for k in range(sum(1 for o in ops if o[0] == "replace")):
+        for k in range(sum(1 for o in ops if o[0] in ("replace", "assign"))):
             for j in range(size):
                 V.int(f"new{k}_{j}", 0, 12)
 
